@@ -751,8 +751,8 @@ func (sp *StreamParser) ExecCmd(cb RdbObjExecutor) {
 	for i := uint64(0); i < listpackLength; i++ {
 		// Get the master ID, key : rdbSaveRawString(rdb,ri.key,ri.key_len)
 		key := r.ReadStringP()
-		masterMs := int64(binary.BigEndian.Uint64(key[:8]))
-		masterSeq := int64(binary.BigEndian.Uint64(key[8:]))
+		masterMs := binary.BigEndian.Uint64(key[:8])
+		masterSeq := binary.BigEndian.Uint64(key[8:])
 
 		/* Load the listpack. */
 		val := r.ReadStringP()
@@ -812,15 +812,17 @@ func (sp *StreamParser) ExecCmd(cb RdbObjExecutor) {
 
 			// The entry-id field is actually two separated fields: the ms
 			// and seq difference compared to the master entry.
-			args := []interface{}{sp.key, fmt.Sprintf("%d-%d", entryMs+masterMs, entrySeq+masterSeq)}
+			// IDs are unsigned 64 bit (the deltas wrap around like in redis)
+			args := []interface{}{sp.key, fmt.Sprintf("%d-%d", masterMs+uint64(entryMs), masterSeq+uint64(entrySeq))}
 
 			if flags&2 == 2 { // STREAM_ITEM_FLAG_SAMEFIELDS
 				for j := int64(0); j < numFields; j++ {
 					args = append(args, fields[j], lp.Next())
 				}
 			} else {
-				numFields = lp.NextInteger()
-				for j := int64(0); j < numFields; j++ {
+				// this entry has its own fields; numFields stays the master entry's
+				entryNumFields := lp.NextInteger()
+				for j := int64(0); j < entryNumFields; j++ {
 					args = append(args, lp.Next(), lp.Next())
 				}
 			}
